@@ -127,14 +127,14 @@ def doApprove (isCompare : Bool) (prev : Status) (policy : String) (now : Nat) (
 the rest is the pure function `doApprove`). -/
 def doApproveMainSkel (b : Backend) : Sess :=
   .ite .never "err != nil" (.ite .never "¬err != pflag.ErrHelp" (.ret .none ["1"]) .skip ;; .ret .none ["1"]) .skip ;;
-  .ite .never "len($Args) != 2" (.ret .none ["1"]) .skip ;;
+  .ite .never "len($v) != 2" (.ret .none ["1"]) .skip ;;
   op "LoadConfig" ;;
   .ite .never "err != nil" (op "abort" ["%v", "err"] ;; .ret .none ["_"]) .skip ;;
   op "EvalSymlinks" ["_"] ;;
   .ite .never "err != nil" (op "abort" ["Can't get 'current' policy directory: %v", "err"] ;; .ret .none ["_"]) .skip ;;
   op "fileExists" ["_"] ;; op "fileExists" ["_"] ;;
-  .ite .never "¬fileExists($Join) || fileExists(path.Join($EvalSymlinks.1, \"code/ipv6\", $index))" (op "abort" ["unknown device %q", "_"] ;; .ret .none ["_"]) .skip ;;
-  .ite .isCompare "¬$index != \"compare\"" .skip (.ite (.not .never) "¬$index != \"approve\"" .skip (.ret .none ["1"])) ;;
+  .ite .never "¬fileExists($v) || fileExists(path.Join($EvalSymlinks.1, \"code/ipv6\", $v))" (op "abort" ["unknown device %q", "_"] ;; .ret .none ["_"]) .skip ;;
+  .ite .isCompare "¬$v != \"compare\"" .skip (.ite (.not .never) "¬$v != \"approve\"" .skip (.ret .none ["1"])) ;;
   op "SetLock" ["_", "_"] ;;
   .ite (.not .never) "$SetLock.1 != nil" (.scope "defer" (op "Close")) .skip ;;
   .ite .never "err != nil" (op "abort" ["%v", "err"] ;; .ret .none ["_"]) .skip ;;
@@ -150,9 +150,9 @@ def doApproveMainSkel (b : Backend) : Sess :=
       (.ite .never "strings.HasPrefix($range.2, \"WARNING>>>\")" .skip
         (.ite .never "strings.HasPrefix($range.2, \"comp: ***\")" .skip .cont)) ;;
     op "logHistory" ["_", "RES:", "_"])) ;;
-  .ite .isCompare "$expr" (op "SetCompare" ["_", "_", "_", "_"]) (op "SetApprove" ["_", "_", "_", "_"]) ;;
+  .ite .isCompare "$v" (op "SetCompare" ["_", "_", "_", "_"]) (op "SetApprove" ["_", "_", "_", "_"]) ;;
   op "logHistory" ["_", "END:", "_"] ;;
-  .ite .never "$var" (.ret .none ["1"]) (.ret .none ["0"])
+  .ite .never "$v" (.ret .none ["1"]) (.ret .none ["0"])
 
 def setApproveSkel : Sess := op "Read" ["_", "_"] ;; op "write" ["_", "_", "_"]
 def setCompareSkel : Sess :=
